@@ -33,9 +33,14 @@ Definition is_jump_err (e : exec_err) : bool :=
   | EInvalidOffsetForJump | EInvalidJumpTarget | ENonExistentJumpTarget | ENoConcreteJumpDestination => true
   | _ => false end.
 
-Record config := mk_config {
-  gas_limit : N; iter_limit : N; fork_limit : N; size_limit : N; mem_limit : N; permissive : bool;
+(* everything the machine and the opcode bodies read ... *)
+Record limits := mk_limits {
+  gas_limit : N; iter_limit : N; fork_limit : N; size_limit : N; mem_limit : N;
   poll_every : N; stop_at : option N }.
+(* ... and the one flag that only gates the RECORDING of jump-target errors *)
+Record config := mk_config' { lim :> limits; permissive : bool }.
+Definition mk_config (gas iter fork size mem : N) (perm : bool) (poll : N) (stop : option N) : config :=
+  mk_config' (mk_limits gas iter fork size mem poll stop) perm.
 
 Definition memgen := (sv * bool)%type.          (* value, is_byte_store *)
 
@@ -230,13 +235,13 @@ Definition ctx_st (c : octx) (st : vstate) : octx := mk_octx (o_env c) st (o_id 
 Definition ctx_id (c : octx) (n : N) : octx := mk_octx (o_env c) (o_st c) n (o_kill c) (o_polls c).
 
 (* should_stop(): consumes one answer of the stream *)
-Definition poll (cfg : config) (c : octx) : bool * octx :=
+Definition poll (cfg : limits) (c : octx) : bool * octx :=
   let stop := match stop_at cfg with Some k => k <=? o_polls c | None => false end in
   (stop, mk_octx (o_env c) (o_st c) (o_id c) (o_kill c) (o_polls c + 1)).
 
 (* a bulk copy loop: for (count, internal_offset) in (0..size_limit).step_by(32).enumerate()
    `body c internal_offset` performs one iteration *)
-Fixpoint copy_loop (cfg : config) (body : octx -> N -> octx) (n : nat) (count off limit : N) (c : octx)
+Fixpoint copy_loop (cfg : limits) (body : octx -> N -> octx) (n : nat) (count off limit : N) (c : octx)
   : octx * option exec_err :=
   match n with
   | O => (c, None)
@@ -248,11 +253,11 @@ Fixpoint copy_loop (cfg : config) (body : octx -> N -> octx) (n : nat) (count of
       else (c, None)
   end.
 
-Definition build_exec (cfg : config) (c : octx) (v : sv) : sv * octx :=
+Definition build_exec (cfg : limits) (c : octx) (v : sv) : sv * octx :=
   let (r, n) := build_limited (size_limit cfg) (o_id c) v in (r, ctx_id c n).
 
 (* control.rs: store_return_data *)
-Definition store_return_data (cfg : config) (c : octx) (ret_size ret_offset : sv) : octx * option exec_err :=
+Definition store_return_data (cfg : limits) (c : octx) (ret_size ret_offset : sv) : octx * option exec_err :=
   match as_word (fold ret_size) with
   | Some w =>
       let limit := N.min (usize_of w) (mem_limit cfg) in
@@ -271,7 +276,7 @@ Definition store_return_data (cfg : config) (c : octx) (ret_size ret_offset : sv
 (* ---- micro-operations -------------------------------------------------------------------------- *)
 Record ienv := mk_ienv { i_ip : N; i_code_len : N; i_self_word : N; i_self_n : N }.
 
-Definition run_mop (cfg : config) (ie : ienv) (m : mop) (c : octx) : octx * option exec_err :=
+Definition run_mop (cfg : limits) (ie : ienv) (m : mop) (c : octx) : octx * option exec_err :=
   match m with
   | MPop x f =>
       match stack (o_st c) with
@@ -332,7 +337,7 @@ Definition run_mop (cfg : config) (ie : ienv) (m : mop) (c : octx) : octx * opti
       end
   end.
 
-Fixpoint run_mops (cfg : config) (ie : ienv) (ms : list mop) (c : octx) : octx * option exec_err :=
+Fixpoint run_mops (cfg : limits) (ie : ienv) (ms : list mop) (c : octx) : octx * option exec_err :=
   match ms with
   | [] => (c, None)
   | m :: r => match run_mop cfg ie m c with
@@ -354,7 +359,7 @@ Fixpoint pop_n (k : nat) (c : octx) (acc : list sv) : octx * option (list sv) :=
 
 Inductive copy_kind := CKCallData | CKCode | CKExtCode | CKReturnData.
 
-Definition copy_value (cfg : config) (k : copy_kind) (addr src size : sv) (c : octx) : sv * octx :=
+Definition copy_value (cfg : limits) (k : copy_kind) (addr src size : sv) (c : octx) : sv * octx :=
   match k with
   | CKCallData =>
       let id := o_id c in build_exec cfg (ctx_id c (id + 1)) (Node T_CallData [id] [src; size])
@@ -364,7 +369,7 @@ Definition copy_value (cfg : config) (k : copy_kind) (addr src size : sv) (c : o
   end.
 
 (* CallDataCopy / CodeCopy / ExtCodeCopy / ReturnDataCopy *)
-Definition exec_copy (cfg : config) (k : copy_kind) (c : octx) : octx * option exec_err :=
+Definition exec_copy (cfg : limits) (k : copy_kind) (c : octx) : octx * option exec_err :=
   let npop := match k with CKExtCode => 4%nat | _ => 3%nat end in
   match pop_n npop c [] with
   | (c0, None) => (c0, Some ENoSuchStackFrame)
@@ -390,7 +395,7 @@ Definition exec_copy (cfg : config) (k : copy_kind) (c : octx) : octx * option e
       end
   end.
 
-Definition exec_log (cfg : config) (n : N) (c : octx) : octx * option exec_err :=
+Definition exec_log (cfg : limits) (n : N) (c : octx) : octx * option exec_err :=
   match pop_n (2 + N.to_nat n) c [] with
   | (c0, None) => (c0, Some ENoSuchStackFrame)
   | (c0, Some vals) =>
@@ -413,6 +418,7 @@ Definition validate_jump (code : list instr) (counter : sv) : N + exec_err :=
   | None => inr ENoConcreteJumpDestination
   | Some w =>
       if two32 <=? w then inr EInvalidOffsetForJump
+      else if N.of_nat (length code) <=? w then inr ENonExistentJumpTarget   (* never convert a large word to nat *)
       else match nth_error code (N.to_nat w) with
            | None => inr ENonExistentJumpTarget
            | Some i => if is_jumpdest i then inl w else inr EInvalidJumpTarget
@@ -452,8 +458,8 @@ Definition exec_jump (code : list instr) (c : octx) : octx * option exec_err * c
   end.
 
 (* JumpI: returns the context, an error that kills the thread (stack underflow only), an error to
-   *store* while the thread continues, and the fork request.  `jt` is the fork tracker. *)
-Definition exec_jumpi (cfg : config) (code : list instr) (vis jt : list (N * N)) (c : octx)
+   *store* while the thread continues (the machine records it unless `permissive`), and the fork request.  `jt` is the fork tracker. *)
+Definition exec_jumpi (cfg : limits) (code : list instr) (vis jt : list (N * N)) (c : octx)
   : octx * option exec_err * option exec_err * ctl * list (N * N) :=
   match stack (o_st c) with
   | [] => (c, Some ENoSuchStackFrame, None, CNone, jt)
@@ -470,7 +476,7 @@ Definition exec_jumpi (cfg : config) (code : list instr) (vis jt : list (N * N))
               else (c0, None, None, CFork t, bump t jt)
           | inr e =>
               let c1 := ctx_st c0 (with_recorded (o_st c0) counter) in
-              (c1, None, (if permissive cfg then None else Some e), CNone, jt)
+              (c1, None, Some e, CNone, jt)
           end
       end
   end.
@@ -490,7 +496,7 @@ Definition instr_args (i : instr) : N :=
   | ILog n => logn_args n | INop => 0 | IInvalid _ => 0 end.
 
 (* executes one instruction body *)
-Definition exec_instr (cfg : config) (code : list instr) (vis jt : list (N * N)) (ip : N) (i : instr) (c : octx)
+Definition exec_instr (cfg : limits) (code : list instr) (vis jt : list (N * N)) (ip : N) (i : instr) (c : octx)
   : octx * option exec_err * option exec_err * ctl * list (N * N) :=
   let ie := mk_ienv ip (N.of_nat (length code))
               (match i with IPush _ d => push_word d | _ => 0 end)
@@ -570,7 +576,9 @@ Definition vm_step (m : vm) : step_result :=
             let '(c3, err, stored_err, k, jt') := exec_instr cfg (v_code m) vis (v_jt m) ip i c1 in
             match err with
             | _ =>
-              let errors1 := match stored_err with Some e => v_errors m ++ [(ip, e)] | None => v_errors m end in
+              let errors1 := match stored_err with
+                             | Some e => if permissive cfg then v_errors m else v_errors m ++ [(ip, e)]
+                             | None => v_errors m end in
               let '(errors2, killed, gas') :=
                 match err with
                 | None => (errors1, o_kill c3, tgas t + instr_gas i)
